@@ -152,6 +152,31 @@ fn c14_systematic() -> Vec<Layout> {
             v.push(lay(b, vec![fld("all", 0, b, uty(b), Access::W), ro_arr.clone()]));
             ro_arr.access = Access::R;
             v.push(lay(b, vec![ro_arr, fld("lo", 0, b / 2, uty(b / 2), Access::RW), fld("hi", b / 2, b - b / 2, uty(b - b / 2), Access::RW)]));
+            // two woven list arrays (stride = total element width) that together cover 16 bits exactly: no
+            // overlap, so a builder exists whenever the rest of the base is covered or a default is declared
+            {
+                let mkw = |name: &str, lo: u32, acc: Access| Field {
+                    name: name.into(),
+                    kw_bit: false,
+                    list: true,
+                    ranges: vec![Rng::new(lo, lo + 1), Rng::new(lo + 8, lo + 9)],
+                    array: Some(ArrayDecl { count: 2, stride: Some(4), colon: false }),
+                    ty: uty(4),
+                    access: acc,
+                    arg_order: 0,
+                    opt_path: 0,
+                    huge: None,
+                    zero_pad: false,
+                };
+                let mut fields = vec![mkw("wa", 0, Access::RW), mkw("wb", 2, Access::RW)];
+                if b > 16 {
+                    fields.push(fld("rest", 16, (b - 16).min(64), uty((b - 16).min(64)), Access::RW));
+                    if b - 16 > 64 {
+                        fields.push(fld("rest2", 80, b - 80, uty(b - 80), Access::W));
+                    }
+                }
+                v.push(lay(b, fields));
+            }
             // list arrays whose *listed order* is not ascending and whose elements collide / do not collide
             for (rs, st, k, ty_w) in [
                 (vec![(6u32, 6u32), (0, 0)], 2u32, 4u32, 2u32), // {6,0},{8,2},{10,4},{12,6}: elements 0 and 3 share bit 6
